@@ -158,8 +158,8 @@ class SegmentWorld(World):
         if k in ('delidx', 'remove'):
             return [k, el, name, rng.randrange(len(reps))]
         if k == 'copy':
-            return ['copy', el, name, other]
-        return ['copy_elem', el, name, other, rng.randrange(len(self.model[other][name]))]
+            return ['copy', el, name, other, self.spelling(name)]
+        return ['copy_elem', el, name, other, rng.randrange(len(self.model[other][name])), self.spelling(name)]
 
     def apply_real(self, op):
         core = self.core
@@ -185,9 +185,11 @@ class SegmentWorld(World):
             self.detached.append(child)
             self.guard(lambda: el.children.remove(child))
         elif k == 'copy':
-            self.guard(lambda: setattr(el, op[2].lower(), getattr(self.els[op[3]], op[2].lower())))
+            sp = op[4] if len(op) > 4 else op[2].lower()
+            self.guard(lambda: setattr(el, sp, getattr(self.els[op[3]], op[2].lower())))
         elif k == 'copy_elem':
-            self.guard(lambda: setattr(el, op[2].lower(), getattr(self.els[op[3]], op[2].lower())[op[4]]))
+            sp = op[5] if len(op) > 5 else op[2].lower()
+            self.guard(lambda: setattr(el, sp, getattr(self.els[op[3]], op[2].lower())[op[4]]))
         else:
             raise KeyError(k)
 
@@ -305,8 +307,8 @@ class FieldWorld(World):
         if k in ('delidx', 'remove'):
             return [k, el, name, 0]
         if k == 'copy':
-            return ['copy', el, name, other]
-        return ['copy_elem', el, name, other, 0]
+            return ['copy', el, name, other, self.spelling(name)]
+        return ['copy_elem', el, name, other, 0, self.spelling(name)]
 
     def apply_real(self, op):
         core = self.core
@@ -332,9 +334,11 @@ class FieldWorld(World):
             self.detached.append(child)
             self.guard(lambda: el.children.remove(child))
         elif k == 'copy':
-            self.guard(lambda: setattr(el, op[2].lower(), getattr(self.els[op[3]], op[2].lower())))
+            sp = op[4] if len(op) > 4 else op[2].lower()
+            self.guard(lambda: setattr(el, sp, getattr(self.els[op[3]], op[2].lower())))
         elif k == 'copy_elem':
-            self.guard(lambda: setattr(el, op[2].lower(), getattr(self.els[op[3]], op[2].lower())[op[4]]))
+            sp = op[5] if len(op) > 5 else op[2].lower()
+            self.guard(lambda: setattr(el, sp, getattr(self.els[op[3]], op[2].lower())[op[4]]))
         else:
             raise KeyError(k)
 
